@@ -1838,7 +1838,8 @@ class C08(HistProp):
                 "starts with an insertion or recompute and goes on with any sequence of successful insertions of such records, recomputes, "
                 "set_tid, set_rcode, set_opcode, set_response(true) and set_flags with QR ends with accepted bytes that are a fixed point of "
                 "decompression, the not-compressed flag, and every offset and EDNS field equal to a fresh parse; plus frame/shape lemmas "
-                "(C08_insert_shape, C08_header_setters_keep_view). Operations that move the cursor (TTL / address / name setters, deletion, "
+                "(C08_insert_shape, C08_header_setters_keep_view); with failing steps tolerated every such history runs to the end without a "
+                "Panic outcome (C08_histories_total). Operations that move the cursor (TTL / address / name setters, deletion, "
                 "cursor decompression), insertion of OPT records or of a question, and histories on synthesised objects are decided each run "
                 "by the correspondence plus the fresh-parse oracle on every step of every history.")
 
@@ -1919,8 +1920,11 @@ class C10(HistProp):
     strength = ("PARTIAL: proved: C10_insert_bound (a successful insert never yields more than 8192 bytes, whatever the starting length, and "
                 "the size test cannot underflow), C10_insert_core_atomic (when the size or count check fails no byte has moved) and "
                 "C10_failed_insert_keeps_message (a failing insert_rr on a freshly parsed packet leaves exactly its decompressed form, "
-                "accepted and reading as the same message; cursor untouched). Atomicity of the other failing operations is decided each "
-                "run by the correspondence and the before/after oracle.")
+                "accepted and reading as the same message; cursor untouched), which satisfies the C08 invariant "
+                "(C10_failed_insert_keeps_invariant); from any state satisfying that invariant a failing insert_rr changes nothing at all "
+                "(C10_failed_insert_changes_nothing) and histories over insert_rr / recompute / the header setters with failing steps "
+                "tolerated run to the end without a Panic outcome and keep the invariant (C08_histories_total). Atomicity of the other "
+                "failing operations (names, deleted cursors, text, rename) is decided each run by the correspondence and the before/after oracle.")
 
     def gen(self, rng, tier):
         n = 400 if tier == "quick" else 10000
